@@ -1,6 +1,6 @@
 //! C16 The neutral axis and the black/white anchors survive every stage.
 
-use crate::api::{cfg, cfg_json, frame444};
+use crate::api::{cfg, cfg_json, frame444_pads};
 use crate::engine::*;
 use crate::oracle::{cp_name, mc_name, tc_name, STD_MC, SUP_CP, SUP_TC};
 use serde_json::{json, Value};
@@ -12,7 +12,9 @@ use super::c06::lib_convert;
 fn decode_grey<T: Pixel>(c: &YuvConfig, lumas: &[u16]) -> Result<Vec<[f32; 3]>, String> {
     let half = 1u16 << (c.bit_depth - 1);
     let codes: Vec<[u16; 3]> = lumas.iter().map(|y| [*y, half, half]).collect();
-    let frame = frame444::<T>(&codes, codes.len(), 1, 0, 0);
+    // two rows and unequal per-plane paddings when the ramp length allows it: neutrality must not depend on layout
+    let (w, h) = if codes.len() % 2 == 0 { (codes.len() / 2, 2) } else { (codes.len(), 1) };
+    let frame = frame444_pads::<T>(&codes, w, h, [(0, 0), (3, 1), (17, 0)]);
     let yuv = Yuv::<T>::new(frame, *c).map_err(|e| format!("Yuv::new: {e:?}"))?;
     Ok(Rgb::try_from(&yuv).map_err(|e| format!("decode: {e:?}"))?.into_data())
 }
